@@ -19,6 +19,8 @@ norm = C05.norm
 
 def run(ctx):
     db = ctx.db
+    from . import C05   # an offset result with holes is returned as keyhole polygons: link_holes must preserve the region
+    ctx.memo('link_holes', {'src/clipper_tools.cpp', 'include/gdstk/sort.hpp'}, C05.check_link_holes_model, db)
     f = db.fn('gdstk::offset', file_suffix='src/clipper_tools.cpp')
     ctx.touch(f)
     # join table and tolerance routing, by evaluation: for every OffsetJoin enumerator the statements that feed ClipperOffset::AddPaths are
